@@ -16,7 +16,18 @@
     spec/Emit_HTreeCat.tla: root limit, interior-node limit, root*node limit, for 1k/2k/4k blocks with and without
     metadata_csum; c-1, c, c+1, c+2 leaf blocks each): every feasible size is built from a linear directory and re-indexed,
     and a directory is grown across each boundary in steps of at most one leaf with `e2fsck -fyD` after every step.
-(4) Refusals: mkdir / symlink / write of a name that exists (every kind of existing object) must change nothing."""
+(4) Refusals: mkdir / symlink / write of a name that exists (every kind of existing object) must change nothing.
+(5) TRANSITION GRAPH of the layout specification (DESIGN 2.2, replay direction): spec/Edge_DirBlock.tla lets TLC enumerate every
+    class of edge link_proc / unlink_proc can take (operation x block x position of the slot x state of the neighbouring slots x
+    kind of the previous operation; DirBlock!DelEdge / InsEdge) in a bounded universe per geometry (1 KiB with / without checksum
+    tail, inline area, 4 KiB), each with the shortest operation sequence that takes it.  A covering set of these sequences is
+    replayed through the library AND through debugfs; every step is validated by Trace_Dir as in (2), and TLC also checks that
+    the step is of the catalogued class (Trace_Dir!EdgesAgree).  The evidence lists the classes covered per front end; a
+    catalogued class that no accepted replay took makes the check CHECK-BROKEN.
+(6) The link-count rule at the REAL limit: Dir!NlinkCatalogue (stored count of the parent in {LinkMax-2, LinkMax-1, LinkMax, 1}
+    x {mkdir, rmdir}, emitted by spec/Emit_DirCat.tla for dir_nlink on and off) is walked in a directory that really holds
+    ~65000 subdirectories (harness/dirdrv.c bulkdir), through the library and through debugfs, e2fsck -fn as the oracle; every
+    line is validated by TLC against spec/Trace_DirNlink.tla (the count abstraction of Dir.tla, same rule operators)."""
 import os, sys, json, random, shutil, subprocess, struct, time, hashlib, threading
 import concurrent.futures as cf
 from common import VERIF, fast_tmp, seed, die_broken, tool_env, run as sh
@@ -29,6 +40,7 @@ SPEC = os.path.join(VERIF, "spec")
 JOBS = 4
 HASH_SEED = "01234567-89ab-cdef-0123-456789abcdef"
 FS_UUID = "11111111-2222-3333-4444-555555555555"
+LINK_MAX = 65000             # EXT2_LINK_MAX: the value of the constant LinkMax in every conformance configuration
 
 # feature profile -> (mke2fs -O list, FileType, DirNlink, inline)
 PROFILES = {
@@ -41,9 +53,10 @@ PROFILES = {
 }
 BLOCKSIZES = (1024, 4096)
 # deviations of the pinned tree that are modelled literally (DESIGN 3.5); all FALSE = repaired behaviour
-DEV = {"DevMkdirNoNlinkRule": "FALSE", "DevKillLeaksEaBlock": "FALSE", "DevMkdirExistsLeak": "FALSE", "DevSymlinkExistsLeak": "FALSE"}
+DEV = {"DevMkdirNoNlinkRule": "FALSE", "DevKillLeaksEaBlock": "FALSE", "DevMkdirExistsLeak": "FALSE", "DevSymlinkExistsLeak": "FALSE",
+       "DevMkdirNoEmlink": "FALSE"}
 
-DEV_ORDER = ["DevSymlinkExistsLeak", "DevMkdirExistsLeak", "DevKillLeaksEaBlock", "DevMkdirNoNlinkRule"]   # naming a rejected behaviour: tried in this order
+DEV_ORDER = ["DevSymlinkExistsLeak", "DevMkdirExistsLeak", "DevKillLeaksEaBlock", "DevMkdirNoNlinkRule", "DevMkdirNoEmlink"]   # naming a rejected behaviour: tried in this order
 FT = {"mkdir": 2, "create": 1, "symlink": 7}
 LOCK = threading.Lock()
 
@@ -222,8 +235,8 @@ def tdir(ino, D, names):
             "dx": {"lv": D["lv"], "nodes": [[n[0], n[1], [list(e) for e in n[3]]] for n in D["nodes"]]}}
 
 
-def tline(kind, prev, cur, names, ops=None, fe=0, rc=0, extra=None):
-    d = {"e": kind, "fe": fe, "rc": rc, "ops": ops or []}
+def tline(kind, prev, cur, names, ops=None, fe=0, rc=0, extra=None, eg=None):
+    d = {"e": kind, "fe": fe, "rc": rc, "ops": ops or [], "eg": eg or []}
     pi = prev.ino if prev else {}
     pd = prev.dirs if prev else {}
     # an inode number released and allocated again inside one run may carry an identical record: log every inode then
@@ -455,7 +468,7 @@ def run_behaviour(env, spec, script=None):
         else:
             cur = Obs(dump(env, img), csum)
         K = cur.fb + sum(v[2] for v in cur.ino.values())
-        lines.append(("reset", None, cur, None, 0, 0))
+        lines.append(("reset", None, cur, None, 0, 0, None))
         nsteps = spec["nsteps"] if script is None else len(script)
         si = 0
         queued = None
@@ -497,9 +510,9 @@ def run_behaviour(env, spec, script=None):
                 cur = Obs(dump(env, img), csum)
             if st.get("then") and rc != 0:
                 queued = None
-            st = {"kind": st["kind"], "ops": st["ops"]}
+            st = dict({"kind": st["kind"], "ops": st["ops"]}, **({"eg": st["eg"]} if st.get("eg") else {}))
             steps.append(st)
-            lines.append((kind, prev, cur, [parse_op(x) for x in ops], 1 if front == "dbg" else 0, rc))
+            lines.append((kind, prev, cur, [parse_op(x) for x in ops], 1 if front == "dbg" else 0, rc, st.get("eg")))
     except RuntimeError as ex:
         crash = str(ex)
     finally:
@@ -513,11 +526,11 @@ def run_behaviour(env, spec, script=None):
             pass
     # names are numbered in order of first use; the reset line carries the complete table
     out = []
-    for kind, prev, c, ops, fe, rc in lines:
+    for kind, prev, c, ops, fe, rc, eg in lines:
         tops = [top(o, names) for o in ops] if ops else []
         if kind == "reset":
             continue
-        out.append(tline("step" if kind == "step" else kind, prev, c, names, tops, fe, rc))
+        out.append(tline("step" if kind == "step" else kind, prev, c, names, tops, fe, rc, eg=eg))
     first = lines[0][2]
     want = [[d, sorted(names.nid(n) for n in ns)] for d, ns in (prep["want"] if prep else [])]
     reset = tline("reset", None, first, names, extra={"bs": bs, "tail": 12 if csum else 0, "cs": 12 if csum else 0, "inline": inline,
@@ -568,13 +581,26 @@ def model_check(ev, tier, work):
         T.write_cfg(p, **kw)
         return p
     base = dict(Root=1, FirstIno=2, NInodes=6, LinkMax=3, LinkMod=8, DirNlink="TRUE", FileType="TRUE",
-                DevMkdirNoNlinkRule="FALSE", DevKillLeaksEaBlock="FALSE", DevMkdirExistsLeak="FALSE", DevSymlinkExistsLeak="FALSE", NameSet="{1, 2, 3}", MaxDirs=3, TotalBlocks=12)
-    inv = ["InvTypeOK", "InvLinksRule", "InvNoFreeReferenced", "InvBalancedIsConsistent", "InvConservation", "InvNoLeak", "InvConsistentIsBalanced"]
+                DevMkdirNoNlinkRule="FALSE", DevKillLeaksEaBlock="FALSE", DevMkdirExistsLeak="FALSE", DevSymlinkExistsLeak="FALSE", DevMkdirNoEmlink="FALSE",
+                NameSet="{1, 2, 3}", MaxDirs=3, TotalBlocks=12)
+    inv = ["InvTypeOK", "InvLinksRule", "InvNoFreeReferenced", "InvBalancedIsConsistent", "InvConservation", "InvNoLeak", "InvConsistentIsBalanced", "InvNoOverflow"]
     depth = 3 if tier == "quick" else 5
     c = cfg("MC_Dir.cfg", spec="Spec", constants=dict(base, MaxDepth=depth), invariants=inv, constraints=["Depth"])
     r = T.tlc(os.path.join(SPEC, "MC_Dir.tla"), c, workers=JOBS, timeout=2400, xmx="4g")
     ev.add_tlc(r, "Dir: 3 directories, 3 names, every operation sequence of length <= %d (BFS)" % depth)
     res.append(("Dir", r))
+    # without dir_nlink: mkdir in a directory that holds LinkMax links is refused (EMLINK), no directory ever exceeds the limit
+    c = cfg("MC_Dir_nonlink.cfg", spec="Spec", constants=dict(base, DirNlink="FALSE", MaxDepth=depth), invariants=inv, constraints=["Depth"])
+    r = T.tlc(os.path.join(SPEC, "MC_Dir.tla"), c, workers=JOBS, timeout=2400, xmx="4g")
+    ev.add_tlc(r, "Dir without dir_nlink: 3 directories, 3 names, every operation sequence of length <= %d (BFS)" % depth)
+    res.append(("Dir-nonlink", r))
+    # the count abstraction of one directory (Trace_DirNlink) at scaled limits, with and without dir_nlink
+    for dn in ("TRUE", "FALSE"):
+        cn = {k: v for k, v in base.items() if k not in ("NameSet", "MaxDirs", "TotalBlocks")}
+        c = cfg("MC_DirNlink_%s.cfg" % dn, spec="Spec", constants=dict(cn, LinkMax=5, DirNlink=dn, MaxSub=7), invariants=["InvCountOK", "InvLinks"])
+        r = T.tlc(os.path.join(SPEC, "MC_DirNlink.tla"), c, workers=1, timeout=300, xmx="1g")
+        ev.add_tlc(r, "DirNlink (count abstraction): LinkMax 5, every sequence of mkdir / rmdir up to 7 subdirectories, dir_nlink %s" % dn)
+        res.append(("DirNlink", r))
     if tier != "quick":
         c = cfg("MC_Dir6.cfg", spec="Spec", constants=dict(base, NameSet="{1, 2, 3, 4, 5, 6}", NInodes=8, MaxDepth=100), invariants=inv)
         r = T.tlc(os.path.join(SPEC, "MC_Dir.tla"), c, workers=JOBS, timeout=900, xmx="4g", simulate=20000, depth=12)
@@ -605,12 +631,12 @@ def model_check(ev, tier, work):
 
 
 # ------------------------------------------------------------------------------------------------ the check
-def trace_cfg(work, prof, dev_on=None):
+def trace_cfg(work, prof, dev_on=None, check_edges=True):
     """dev_on: name of one literal deviation (Dir.tla Dev* constant) to enable -- used only to NAME the deviation a rejected behaviour shows"""
     feat, ftflag, dirnlink, inline = PROFILES[prof]
-    p = os.path.join(work, "Trace_Dir_%s%s.cfg" % (prof, "_" + dev_on if dev_on else ""))
-    consts = dict(Root=2, FirstIno=11, NInodes=2048, LinkMax=65000, LinkMod=65536, DirNlink="TRUE" if dirnlink else "FALSE",
-                  FileType="TRUE" if ftflag else "FALSE")
+    p = os.path.join(work, "Trace_Dir_%s%s%s.cfg" % (prof, "_" + dev_on if dev_on else "", "" if check_edges else "_noedges"))
+    consts = dict(Root=2, FirstIno=11, NInodes=2048, LinkMax=LINK_MAX, LinkMod=65536, DirNlink="TRUE" if dirnlink else "FALSE",
+                  FileType="TRUE" if ftflag else "FALSE", CheckEdges="TRUE" if check_edges else "FALSE")
     consts.update(DEV)
     if dev_on:
         consts[dev_on] = "TRUE"
@@ -775,6 +801,319 @@ def boundary_specs(tier, cat, rng):
     return specs, skipped
 
 
+
+# ------------------------------------------------------------------------------------------------ edge catalogue (transition graph of DirBlock)
+# universes: geometry x names x (names inserted first, in order) x (operations after that); profiles that have this geometry
+def edge_universes(tier, rng):
+    q = tier == "quick"
+    u = [dict(tag="1kcsum", N=7, nlen="L255", G="G1kCsum", inline=0, fill=7, maxops=4 if q else 5, bs=1024, profs=["dxcsum", "nlink"]),
+         dict(tag="1k", N=10, nlen="LMix", G="G1k", inline=0, fill=10, maxops=4 if q else 5, bs=1024, profs=["linear", "dx", "noft"]),
+         dict(tag="inline", N=6, nlen="LInl", G="G1kCsum", inline=1, fill=0, maxops=5 if q else 7, bs=1024, profs=["inline"])]
+    k4 = [dict(tag="4kcsum", N=32, nlen="L255", G="G4kCsum", inline=0, fill=32, maxops=2 if q else 3, bs=4096, profs=["dxcsum", "nlink"]),
+          dict(tag="4k", N=32, nlen="L255", G="G4k", inline=0, fill=32, maxops=2 if q else 3, bs=4096, profs=["dx", "linear", "noft"])]
+    u += [k4[rng.randrange(2)]] if q else k4
+    if not q:
+        u += [dict(tag="1kcsum-partial", N=7, nlen="L255", G="G1kCsum", inline=0, fill=4, maxops=5, bs=1024, profs=["nlink", "dxcsum"]),
+              dict(tag="1k-partial", N=10, nlen="LMix", G="G1k", inline=0, fill=6, maxops=5, bs=1024, profs=["dx", "noft", "linear"]),
+              dict(tag="inline4k", N=6, nlen="LInl", G="G4kCsum", inline=1, fill=0, maxops=6, bs=4096, profs=["inline"])]
+    return u
+
+
+def ekey(e):
+    return "%s/%s/%s/prev=%s/next=%s/%s%s%s/after=%s" % (e["op"], e["blk"], e["pos"], e["prev"], e["next"], e["self"], e["how"], "+sweep" if e["sweep"] else "", e["after"])
+
+
+def load_edges(ev, work, tier, rng):
+    """TLC enumerates the edge classes of every universe; returns [universe dict + "edges": [{"e": class, "w": labelled witness}]]"""
+    univ = edge_universes(tier, rng)
+    def one(u):
+        out = os.path.join(work, "edges_%s.json" % u["tag"])
+        c = os.path.join(work, "Edge_%s.cfg" % u["tag"])
+        with open(c, "w") as f:
+            f.write("SPECIFICATION Spec\nCONSTANTS\n  N = %d\n  NLen <- %s\n  G <- %s\n  Inline = %s\n  Fill = %d\n  MaxOps = %d\n  MaxBlocks = 9\n"
+                    "INVARIANT InvChain\nINVARIANT InvLive\nVIEW View\nPOSTCONDITION Emit\nCHECK_DEADLOCK FALSE\n"
+                    % (u["N"], u["nlen"], u["G"], "TRUE" if u["inline"] else "FALSE", u["fill"], u["maxops"]))
+        r = T.tlc(os.path.join(SPEC, "Edge_DirBlock.tla"), c, workers=1, timeout=1500, env={"OUT": out}, xmx="3g")
+        return u, r, out
+    with cf.ThreadPoolExecutor(max_workers=JOBS) as ex:
+        res = list(ex.map(one, univ))
+    for u, r, out in res:
+        if r.violated and r.violated != "POSTCONDITION":
+            return None, "model: invariant %s violated in Edge_DirBlock (%s)\n%s" % (r.violated, u["tag"], r.out[-3000:])
+        if not r.ok or not os.path.exists(out):
+            die_broken("TLC could not enumerate the edge catalogue (Edge_DirBlock, %s): %s\n%s" % (u["tag"], r.error or r.violated, r.out[-1500:]))
+        d = json.load(open(out))
+        u["nlens"] = d["nlen"]
+        u["edges"] = sorted(d["edges"], key=lambda x: ekey(x["e"]))
+        if not u["edges"]:
+            die_broken("empty edge catalogue for %s" % u["tag"])
+        ev.add_tlc(r, "DirBlock transition graph, %s: %d names, the first %d inserted in order, then every sequence of <= %d insertions / removals: %d edge classes"
+                   % (u["tag"], u["N"], u["fill"], u["maxops"], len(u["edges"])))
+    return [u for u, r, out in res], None
+
+
+EDGEDIR = 12                 # the directory the replays work in (first free inode of a fresh base image)
+EKINDS = ("create0", "mknod", "symlink", "mkdir", "create100")
+
+
+def ename(n, ln):
+    if ln == 1:
+        return "ABCDEFGHIJKLMNOPQRSTUVWXYZabcdefghijklmn"[n]
+    return ("%02d" % n).ljust(ln, "q")[:ln]
+
+
+def eop(o, n, ln, front):
+    """driver-format operation for one catalogue step; the object kind rotates with the name"""
+    kind = EKINDS[n % len(EKINDS)]
+    nm = ename(n, ln)
+    if o == "del":
+        return ("rmdir %d %s" if kind == "mkdir" else "rm %d %s") % (EDGEDIR, nm)
+    return {"create0": "create %d %s 0", "mknod": "mknod %d %s p", "symlink": "symlink %d %s 10", "mkdir": "mkdir %d %s", "create100": "create %d %s 100"}[kind] % (EDGEDIR, nm)
+
+
+def edge_specs(univ):
+    """a covering set of witnesses per universe (greedy), each replayed through the library and through debugfs"""
+    specs = []
+    for u in univ:
+        todo = {ekey(x["e"]) for x in u["edges"]}
+        chosen = []
+        cand = [(x["w"], {ekey(st["e"]) for st in x["w"]}) for x in u["edges"]]
+        while todo:
+            w, ks = max(cand, key=lambda c: (len(c[1] & todo), -len(c[0])))
+            if not ks & todo:
+                break
+            chosen.append(w); todo -= ks
+        for wi, w in enumerate(chosen):
+            for fi, fe in enumerate(("lib", "dbg")):
+                sc = [{"kind": "step", "ops": ["mkdir 2 ed"]}]
+                run_ops, run_eg = [], []
+                for k, st in enumerate(w):
+                    run_ops.append(eop(st["o"], st["n"], u["nlens"][st["n"] - 1], fe)); run_eg.append(st["e"])
+                    # the names inserted first travel in runs of up to 8 (every operation labelled; the layout is compared after the run)
+                    if k >= u["fill"] - 1 or len(run_ops) == 8:
+                        sc.append({"kind": "step", "ops": run_ops, "eg": run_eg}); run_ops, run_eg = [], []
+                if run_ops:
+                    sc.append({"kind": "step", "ops": run_ops, "eg": run_eg})
+                sc.append({"kind": "fsckn", "ops": []})
+                prof = u["profs"][(wi + fi) % len(u["profs"])]
+                specs.append(dict(prof=prof, bs=u["bs"], front=fe, seed=1, nsteps=len(sc), raw=0, big=0, script=sc,
+                                  cat=dict(kind="edge", univ=u["tag"], classes=sorted({ekey(st["e"]) for st in w}))))
+    return specs
+
+
+# ------------------------------------------------------------------------------------------------ the link-count rule at the real limit
+NL_PROFILES = {1: "nlink", 0: "dx"}          # dir_nlink on / off
+NLDIR = 12
+
+
+def load_nlink_catalogue(ev, work):
+    cat = []
+    for dn in (1, 0):
+        out = os.path.join(work, "nlink_cat_%d.json" % dn)
+        c = os.path.join(work, "Emit_DirCat_%d.cfg" % dn)
+        consts = dict(Root=2, FirstIno=11, NInodes=2048, LinkMax=LINK_MAX, LinkMod=65536, DirNlink="TRUE" if dn else "FALSE", FileType="TRUE")
+        consts.update(DEV)
+        T.write_cfg(c, constants=consts)
+        r = T.tlc(os.path.join(SPEC, "Emit_DirCat.tla"), c, workers=1, timeout=300, env={"OUT": out}, xmx="1g")
+        if not r.ok or not os.path.exists(out):
+            die_broken("TLC could not enumerate the link-count catalogue (Emit_DirCat): %s\n%s" % (r.error, r.out[-1500:]))
+        cat += json.load(open(out))["cat"]
+    return sorted(cat, key=lambda e: (e["dirnlink"], e["links"] == 1, e["links"], e["op"]))
+
+
+def plan_walk(els, start):
+    """operations (op, stored count before it) that take every catalogue element of `els` starting from the stored count `start`;
+    moves outside the catalogued counts are plain +1 / -1"""
+    todo = {(e["links"], e["op"]): e for e in els}
+    cur, ops = start, []
+    def do(op):
+        nonlocal cur
+        e = todo.pop((cur, op), None)
+        ops.append((op, cur))
+        cur = e["after"] if e else (cur + 1 if op == "mkdir" else cur - 1)
+    guard = 0
+    while todo and guard < 200:
+        guard += 1
+        nums = sorted(k[0] for k in todo if k[0] != 1)
+        target = nums[0] if (nums and cur != 1) else 1
+        if cur == target:
+            do("rmdir" if (cur, "rmdir") in todo else "mkdir")
+        elif target == 1 or cur < target:
+            do("mkdir")
+        else:
+            do("rmdir")
+    return ops, todo
+
+
+def nlink_specs(cat):
+    specs = []
+    for dn in (1, 0):
+        els = [e for e in cat if e["dirnlink"] == dn]
+        start = min(e["links"] for e in els if e["links"] != 1)
+        for fe in ("lib", "dbg"):
+            # requests that must be refused get a behaviour of their own (a tree that does not refuse them diverges from there on)
+            for part in ([e for e in els if not e["refused"]], [e for e in els if e["refused"]]):
+                if not part:
+                    continue
+                ops, left = plan_walk(part, start)
+                if left:
+                    die_broken("no walk through the link-count catalogue elements %s" % sorted(left))
+                specs.append(dict(dirnlink=dn, prof=NL_PROFILES[dn], front=fe, start=start, ops=ops))
+    return specs
+
+
+class NlinkBase:
+    """one filesystem per profile whose directory NLDIR really has start - 2 subdirectories (built once, copied per behaviour)"""
+    def __init__(self, env):
+        self.env, self.img, self.lock = env, {}, threading.Lock()
+
+    def get(self, prof, start):
+        with self.lock:
+            if (prof, start) in self.img:
+                return self.img[(prof, start)]
+            env = self.env
+            p = os.path.join(env.work, "nlbase_%s_%d.img" % (prof, start))
+            cmd = [os.path.join(env.b, "misc", "mke2fs"), "-q", "-F", "-t", "ext4", "-b", "1024", "-I", "256", "-m", "0", "-N", str(LINK_MAX + 1000),
+                   "-E", "hash_seed=" + HASH_SEED, "-U", FS_UUID, "-O", "^has_journal,^resize_inode,^flex_bg," + PROFILES[prof][0], p, "112M"]
+            rc, o, e = sh(cmd, env=env.env, timeout=120)
+            if rc != 0:
+                die_broken("mke2fs failed for the link-count base image %s: %s" % (prof, (o + e).decode()[-500:]))
+            # a few long names make two blocks, e2fsck -fyD indexes the directory (linking 65000 names into a linear directory is quadratic)
+            prep = ["-mkdir 2 big"] + ["-mknod %d l%d_%s p" % (NLDIR, i, "y" * 240) for i in range(6)] + ["-fsck fyD", "-bulkdir %d s %d" % (NLDIR, start - 2), "nl %d" % NLDIR]
+            rc, o, e = sh([env.drv, p, "runq"], env=env.env, timeout=600, input=("\n".join(prep) + "\nquit\n").encode())
+            try:
+                last = json.loads(o.decode().strip().split("\n")[-1])
+            except Exception:
+                last = {}
+            if rc != 0 or last.get("r") != "ok" or "nl" not in last:
+                raise RuntimeError("preparing the directory with %d subdirectories failed (rc=%s): %s" % (start - 2, rc, e.decode("utf8", "replace")[-300:]))
+            self.img[(prof, start)] = p
+            return p
+
+
+def run_nlink(env, nb, spec):
+    """returns dict(lines=[...], crash, spec, covered=[(links, op)])"""
+    lines, crash, drv = [], None, None
+    img = os.path.join(env.work, "nl_%s_%s_%d.img" % (spec["prof"], spec["front"], len(spec["ops"])))
+    fe = 1 if spec["front"] == "dbg" else 0
+    made, nbulk = [], spec["start"] - 2
+    def obs_dbg():
+        rc, o, e = sh([env.drv, img, "nl", str(NLDIR)], env=env.env, timeout=300)
+        if rc != 0:
+            raise RuntimeError("dirdrv nl failed rc=%d: %s" % (rc, e.decode("utf8", "replace")[-300:]))
+        return json.loads(o)["nl"]
+    try:
+        shutil.copyfile(nb.get(spec["prof"], spec["start"]), img)
+        if fe == 0:
+            drv = subprocess.Popen([env.drv, img, "runq"], stdin=subprocess.PIPE, stdout=subprocess.PIPE, stderr=subprocess.PIPE, env=env.env)
+            drv.stdout.readline()
+            def lib(cmd):
+                drv.stdin.write((cmd + "\n").encode()); drv.stdin.flush()
+                ln = drv.stdout.readline()
+                if not ln:
+                    raise RuntimeError("dirdrv died: " + drv.stderr.read().decode("utf8", "replace")[-300:])
+                return json.loads(ln)
+            r = lib("nl %d" % NLDIR); o = r["nl"]
+        else:
+            o = obs_dbg()
+        lines.append({"e": "reset", "fe": fe, "r": "ok", "rc": 0, "nl": o})
+        fscked = set()
+        for k, (op, before) in enumerate(spec["ops"]):
+            if op == "mkdir":
+                name = "x%d" % len(made + [0]) + "_%d" % k; made.append(name)
+            elif made:
+                name = made.pop()
+            else:
+                nbulk -= 1; name = "s%05d" % nbulk
+            if fe == 0:
+                r = lib("nl%s %d %s" % (op, NLDIR, name)); o, res = r["nl"], r["r"]
+            else:
+                rc2, out, err = sh([os.path.join(env.b, "debugfs", "debugfs"), "-w", "-R", "%s /big/%s" % (op, name), img], env=env.env, timeout=300)
+                if rc2 < 0 or rc2 > 1:
+                    raise RuntimeError("debugfs exited %d on %s: %s" % (rc2, op, err.decode("utf8", "replace")[-300:]))
+                o, res = obs_dbg(), "dbg"
+            lines.append({"e": op, "fe": fe, "r": res, "rc": 0, "nl": o})
+            if o["links"] not in fscked or k == len(spec["ops"]) - 1:
+                fscked.add(o["links"])
+                if fe == 0:
+                    r = lib("nlfsck fn"); rc3, o = r["rc"], r["nl"]
+                else:
+                    rc3, out, err = sh([env.env["DIRDRV_E2FSCK"], "-fn", img], env=env.env, timeout=600)
+                    o = obs_dbg()
+                lines.append({"e": "fsckn", "fe": fe, "r": "ok", "rc": rc3, "nl": o})
+    except RuntimeError as ex:
+        crash = str(ex)
+    finally:
+        if drv:
+            try:
+                drv.stdin.write(b"quit\n"); drv.stdin.close(); drv.wait(timeout=120)
+            except Exception:
+                drv.kill()
+        try:
+            os.unlink(img)
+        except OSError:
+            pass
+    return dict(lines=lines, crash=crash, spec=spec)
+
+
+def nlink_cfg(work, dn, dev_on=None):
+    p = os.path.join(work, "Trace_DirNlink_%d%s.cfg" % (dn, "_" + dev_on if dev_on else ""))
+    consts = dict(Root=2, FirstIno=11, NInodes=2048, LinkMax=LINK_MAX, LinkMod=65536, DirNlink="TRUE" if dn else "FALSE", FileType="TRUE")
+    consts.update(DEV)
+    if dev_on:
+        consts[dev_on] = "TRUE"
+    T.write_cfg(p, spec="TraceSpec", constants=consts, invariants=["InvTypeOK"] if dev_on else ["InvTypeOK", "InvCountOK"], postcondition="TraceAccepted")
+    return p
+
+
+def check_nlink(ev, vd, env, work, cat, nbehs):
+    """validates the link-count walks; returns the number of rejected behaviours"""
+    module = os.path.join(SPEC, "Trace_DirNlink.tla")
+    covered, nfail, nlines = set(), 0, 0
+    for bh in nbehs:
+        if bh["crash"]:
+            vd.violation("crash", "front end crashed or failed on a walk across the link-count limit: " + bh["crash"][:300], {"spec": bh["spec"]})
+    for dn in (1, 0):
+        sub = [bh for bh in nbehs if bh["spec"]["dirnlink"] == dn and not bh["crash"]]
+        if not sub:
+            continue
+        tb = [[json.dumps(x, separators=(",", ":")) for x in bh["lines"]] for bh in sub]
+        nlines += sum(len(x) for x in tb)
+        res = tracecheck.validate(tb, module, nlink_cfg(work, dn), work, chunk_lines=60, jobs=JOBS, timeout=600)
+        if res["broken"]:
+            die_broken("TLC failed on a link-count trace: %s\n%s" % (res["broken"][0]["error"], res["broken"][0]["out_tail"][-1500:]))
+        ev.cov["states"] += res["distinct"]; ev.cov["transitions"] += res["generated"]
+        first = {f["behaviour"]: (f["line_in_behaviour"], f["violated"]) for f in reversed(res["failures"])}
+        for bi, bh in enumerate(sub):
+            sp = bh["spec"]
+            els = {(dn, before, op, sp["front"]) for op, before in sp["ops"]}
+            if bi not in first:
+                covered |= els; continue
+            nfail += 1
+            k, inv = first[bi]
+            named = None
+            for dev in ("DevMkdirNoEmlink", "DevMkdirNoNlinkRule"):
+                rej, m2, inv2, tail2, _ = tracecheck.confirm(tb[bi], module, nlink_cfg(work, dn, dev), work, timeout=600)
+                if not rej:
+                    named = dev; break
+            ln = bh["lines"][k] if k < len(bh["lines"]) else {"e": "(end)", "nl": {}}
+            what = "%s in a directory with %s subdirectories and stored count %s (front end %s, dir_nlink %s): observed %s" % (
+                ln["e"], bh["lines"][k - 1]["nl"].get("sub") if 0 < k <= len(bh["lines"]) else "?", bh["lines"][k - 1]["nl"].get("links") if 0 < k <= len(bh["lines"]) else "?",
+                sp["front"], "on" if dn else "off", json.dumps({x: ln["nl"].get(x) for x in ("links", "sub", "fi", "fb")} if ln.get("nl") else {}) + (" e2fsck -fn exit %s" % ln["rc"] if ln["e"] == "fsckn" else ""))
+            if named:
+                covered |= els       # the walk was taken; it shows the named deviation
+                vd.violation(named, "the code shows the literal deviation %s: rejected as specified at line %d, accepted with the deviation enabled: %s" % (named, k, what),
+                             {"nlink_walk": sp, "first_unmatched_line": k, "deviation": named, "lines": bh["lines"][max(0, k - 2):k + 2]})
+            else:
+                vd.violation("nlink: %s@%s" % ("invariant %s violated" % inv if inv else "trace rejected", ln["e"]), ("invariant %s violated: " % inv if inv else "trace rejected: ") + what,
+                             {"nlink_walk": sp, "first_unmatched_line": k, "lines": bh["lines"][max(0, k - 2):k + 2]})
+    want = {(e["dirnlink"], e["links"], e["op"], fe) for e in cat for fe in ("lib", "dbg")}
+    ev.cov["nlink_catalogue"] = {"elements": sorted("%s/%d/%s" % ("dir_nlink" if e["dirnlink"] else "no dir_nlink", e["links"], e["op"] + ("(refused)" if e["refused"] else "")) for e in cat),
+                                 "element_x_front_end": len(want), "taken_and_validated": len(want & covered), "lines": nlines}
+    if not vd.viol and want - covered:
+        die_broken("link-count catalogue elements not taken by the walks built for them: %s" % sorted(want - covered)[:6])
+    return nfail, nlines
+
 REFUSALS = [("mkdir", "mkdir 2 %s"), ("write", "create 2 %s 0"), ("symlink", "symlink 2 %s 10"), ("slowlink", "symlink 2 %s 200")]
 
 
@@ -868,9 +1207,19 @@ def run(tier):
         rng = random.Random(seed())
         cat = load_catalogue(work)
         specs, skipped = universe(tier, rng, cat)
+        eunivs, e_err = load_edges(ev, work, tier, rng)
+        if e_err:
+            vd.violation("model", e_err[:300], {"tlc": e_err})
+            eunivs = []
+        nref = sum(1 for sp in specs if (sp.get("cat") or {}).get("kind") == "refusal")
+        specs = specs[:len(specs) - nref] + edge_specs(eunivs) + specs[len(specs) - nref:]       # the refusal behaviours stay last
+        ncat = load_nlink_catalogue(ev, work)
+        nspecs, nbase = nlink_specs(ncat), NlinkBase(env)
         t0 = time.time()
         with cf.ThreadPoolExecutor(max_workers=JOBS) as ex:
+            nfut = [ex.submit(run_nlink, env, nbase, sp) for sp in nspecs]          # the long ones first
             behs = list(ex.map(lambda s: run_behaviour(env, {k: v for k, v in s.items() if k != "script"}, script=s.get("script")), specs))
+            nbehs = [f.result() for f in nfut]
         ev.cov["wall_run_s"] = round(time.time() - t0, 1)
         for bh in behs:
             if bh["crash"]:
@@ -878,6 +1227,7 @@ def run(tier):
         behs = [bh for bh in behs if not bh["crash"]]
         nfail = 0
         total_lines = 0
+        rejected = set()
         for prof in PROFILES:
             sub = [bh for bh in behs if bh["spec"]["prof"] == prof]
             if not sub:
@@ -913,7 +1263,14 @@ def run(tier):
                     rej, matched, inv, tail, _ = tracecheck.confirm(tb[bi], os.path.join(SPEC, "Trace_Dir.tla"), cfgp, work, timeout=900)
                 if not rej:
                     continue
+                if bi not in named and (sub[bi]["spec"].get("cat") or {}).get("kind") == "edge":
+                    # accepted once the class labels are ignored = the replay took other edges than the catalogue says: the check is at fault
+                    rej2 = tracecheck.confirm(tb[bi], os.path.join(SPEC, "Trace_Dir.tla"), trace_cfg(work, prof, check_edges=False), work, timeout=900)[0]
+                    if not rej2:
+                        die_broken("a replay of the edge catalogue (%s, %s, %s/%d) is a behaviour of the specification but its steps are not of the catalogued classes (line %s)"
+                                   % (sub[bi]["spec"]["cat"]["univ"], sub[bi]["spec"]["front"], prof, sub[bi]["spec"]["bs"], matched))
                 nfail += 1
+                rejected.add(id(sub[bi]))
                 if bi in named:
                     k = matched if matched is not None else 0
                     ln = json.loads(tb[bi][k]) if k < len(tb[bi]) else {"e": "(end)", "ops": []}
@@ -922,9 +1279,26 @@ def run(tier):
                                  {"spec": sub[bi]["spec"], "steps": sub[bi]["steps"], "first_unmatched_line": k, "deviation": named[bi]})
                     continue
                 report(vd, sub[bi], tb[bi], matched, inv, tail)
-        ev.cov["trace_lines_validated"] = total_lines
-        ev.cov["traces_validated_against_impl"] = len(behs) - nfail
-        ev.cov["evaluations"] = len(behs)
+        nfail_n, nlines_n = check_nlink(ev, vd, env, work, ncat, nbehs)
+        ev.cov["trace_lines_validated"] = total_lines + nlines_n
+        ev.cov["traces_validated_against_impl"] = len(behs) - nfail + len([b for b in nbehs if not b["crash"]]) - nfail_n
+        ev.cov["evaluations"] = len(behs) + len(nbehs)
+        # edge catalogue: a class is covered by a front end when an ACCEPTED replay (TLC checked the class of every labelled step) took it
+        ecov = {}
+        for bh in behs:
+            c = bh["spec"].get("cat") or {}
+            if c.get("kind") == "edge" and id(bh) not in rejected:
+                ecov.setdefault((c["univ"], bh["spec"]["front"]), set()).update(c["classes"])
+        erep, emiss = {}, []
+        for u in eunivs:
+            allc = {ekey(x["e"]) for x in u["edges"]}
+            erep[u["tag"]] = {"classes": len(allc), "replays": sum(1 for sp in specs if (sp.get("cat") or {}).get("univ") == u["tag"]),
+                              "covered_lib": len(allc & ecov.get((u["tag"], "lib"), set())), "covered_dbg": len(allc & ecov.get((u["tag"], "dbg"), set())),
+                              "class_list": sorted(allc)}
+            emiss += ["%s/%s: %s" % (u["tag"], fe, k) for fe in ("lib", "dbg") for k in sorted(allc - ecov.get((u["tag"], fe), set()))]
+        ev.cov["edge_catalogue"] = erep
+        if not vd.viol and emiss:
+            die_broken("edge catalogue classes not taken by an accepted replay: %s" % emiss[:6])
         tot = {}
         for bh in behs:
             for k, v in features(bh).items():
@@ -954,12 +1328,15 @@ def run(tier):
         ev.cov["rule"] = ("histories of namespace operations chosen (seeded) from the observed state, run through libext2fs (harness/dirdrv.c) and debugfs -w -f "
                           "on 6 feature profiles x {1k,4k}, interleaved with e2fsck -fyD, ending in e2fsck -fn; plus the scripted behaviours of the boundary catalogue "
                           "(HTree!Catalogue via Emit_HTreeCat: growth across / first indexing at every catalogued leaf count the tier can build, see boundary_catalogue) and of the "
-                          "refusal catalogue (request kind x kind of the existing object); non-trivial = >= 1 removal that coalesces/clears "
+                          "refusal catalogue (request kind x kind of the existing object), of the edge catalogue (every class of transition of DirBlock.tla that TLC finds in the bounded "
+                          "universes of spec/Edge_DirBlock.tla, through both front ends, see edge_catalogue) and of the link-count catalogue (Dir!NlinkCatalogue walked in a directory with "
+                          "~65000 real subdirectories, see nlink_catalogue); non-trivial = >= 1 removal that coalesces/clears "
                           "a directory slot and >= 1 removal that frees an inode; distinct by operation sequence")
         if behs:
             ev.sample({"spec": behs[0]["spec"], "steps": behs[0]["steps"][:8]})
             ev.sample({"spec": behs[-1]["spec"], "steps": behs[-1]["steps"][:5]})
-        ev.cov["checker_cmd"] = "TRACE=<chunk> tlc -workers 1 -config <Trace_Dir_<profile>.cfg> spec/Trace_Dir.tla (POSTCONDITION TraceAccepted; INVARIANT InvTypeOK InvLinksRule InvNoFreeReferenced InvBalancedIsConsistent InvNoLeak InvLayout)"
+        ev.cov["checker_cmd"] = ("TRACE=<chunk> tlc -workers 1 -config <Trace_Dir_<profile>.cfg> spec/Trace_Dir.tla (POSTCONDITION TraceAccepted; INVARIANT InvTypeOK InvLinksRule InvNoFreeReferenced InvBalancedIsConsistent InvNoLeak InvLayout); "
+                                 "link-count walks: the same with spec/Trace_DirNlink.tla (INVARIANT InvTypeOK InvCountOK)")
         ev.assumptions = ASSUMPTIONS
         return vd.finish()
     finally:
@@ -977,6 +1354,11 @@ ASSUMPTIONS = [
     "directories of the boundary catalogue larger than a 1 KiB-block htree (and every directory that is indexed for the first time at a catalogued size) are built through the library "
     "before the first observation; TLC checks that this observation is consistent and lists exactly the intended names, the build-up itself is validated operation by operation only at 1 KiB",
     "a refused mkdir / symlink / write names an existing entry of an in-use directory; mknod and ln of an existing name are not issued (debugfs does not refuse them)",
+    "edge catalogue: the classes are those DirBlock.tla can take in the bounded universes of spec/Edge_DirBlock.tla (names inserted in order, then every short sequence); "
+    "directories of the replays are linear or inline (an indexed directory inserts through dx_link, whose leaves are covered by HTree.tla)",
+    "link-count walks: the directory at the limit is indexed (as the kernel would have it; e2fsck pass 4 accepts a saturated count of 1 below the limit only on indexed directories) "
+    "and is prepared with harness/dirdrv.c bulkdir (ext2fs_mkdir without a name + ext2fs_link); TLC checks that the prepared state is consistent; there the observation is the count "
+    "abstraction of Trace_DirNlink.tla (counts of names / subdirectories / free inodes and blocks), not the full listing",
 ]
 
 
